@@ -116,11 +116,7 @@ Theorem C12_apply_called_once_per_group_in_row_order :
       = flat_map (fun entry =>
                     map (fun k => (snd entry, gather (fst entry) (group_rows (keq xeq) ks k)))
                         (first_keys (keq xeq) ks)) raps.
-Proof.
-  intros X T xeq xleb xz fmean fstdev F r s tr t over a ov bs raps H1 H2 H3 H4 ks.
-  rewrite (aggregate_refines X T xeq xleb xz fmean fstdev F r s tr t over a ov bs raps H1 H2 H3 H4).
-  reflexivity.
-Qed.
+Proof. exact apply_call_log. Qed.
 Print Assumptions C12_apply_called_once_per_group_in_row_order.
 
 (* Groups without a non-None value: 0 for sum and count, None otherwise; stdev of fewer
